@@ -325,7 +325,9 @@ def stage1(run: Run):
                  ensures=["implies(self.http_opt is None, forall(lambda x: x not in result, str))",
                           "implies(self.http_opt is not None and self.http_opt.get('body') == '*', forall(lambda x: x not in result, str))",
                           "implies(self.http_opt is not None and self.http_opt.get('body') != '*', forall(lambda x: (x in result) == "
-                          "(x in self.input.fields and x not in self.path_params and not (self.http_opt.get('body') is not None and self.http_opt.get('body') != '' and x == self.http_opt.get('body'))), str))"])
+                          "(x in self.input.fields and self.input.fields[x].field_pb.name not in self.path_params and not (self.http_opt.get('body') is not None and "
+                          "self.http_opt.get('body') != '' and self.input.fields[x].field_pb.name == self.http_opt.get('body'))), str))"])
+    # (the annotation names fields as the proto does; the keys of input.fields are the python names - `type_` for `type`)
     m.add_contract(c)
     run.verify(m, c)
     # Method.path_params: the path variables of the *primary* binding (regex over http_opt['url']; AST provenance - findall is outside pyvc)
